@@ -34,6 +34,36 @@ class PanickingUpstream(hlib.Upstream):
         return hlib.Upstream.trait_call(self, ex, trait, method, args)
 
 
+def _native_sink(ex, sink, script, at):
+    """the real sink (replay/ops_sink.rs) over the concretised script with the upstream panicking at `at`"""
+    runner, prof = ex.env['native']
+    ex.env['native_used'] = True
+    kind = {'collect_vec': 0, 'collect': 1, 'collect_count': 2}[sink]
+    args = [kind, at if at < len(script) else -1] + hlib.encode_script(ex, script, False)
+    txt = runner('sink', args)[prof]
+    ex.env['native_out'] = txt
+    head, out = txt.split('OUT')
+    toks = head.split()
+    flags, ended = toks[:-1], toks[-1]
+    out = out.strip()
+    if '1' in flags:
+        raise Violation('sink published a result before Terminate (native flags %s)' % ' '.join(flags))
+    data = [e for e in script if e.variant in ('Item', 'Timestamped')]
+    if ended == 'P':
+        if out != '-':
+            raise Violation('sink published a (partial) result although the upstream panicked: ' + out)
+        return {'native': txt}
+    if ended != 'E':
+        raise Violation('sink did not terminate: ' + txt)
+    if sink == 'collect_count':
+        want = str(sum(hlib.concrete_int(ex, e.fields[0]) for e in data) % (1 << 64))
+    else:
+        want = '[' + ','.join(str(e.fields[0].v) for e in data) + ']'
+    if out != want:
+        raise Violation('published result %s, expected %s' % (out, want))
+    return {'native': txt}
+
+
 def sink_harness(w, sink, iters, max_len):
     tb = {'collect_vec': 'CollectVecSink', 'collect': 'Collect', 'collect_count': 'CollectCountSink'}[sink]
     new = w.impls[(None, tb)]['new'][0]
@@ -46,6 +76,8 @@ def sink_harness(w, sink, iters, max_len):
             (lambda ex, k: Int('u64', k))
         script = hlib.gen_script(ex, iters, max_len, 'ITW', payload=pay, ts_span=(1000, 4))
         at = ex.choose(len(script) + 1, 'panic position')      # == len(script): no panic
+        if ex.env.get('native'):
+            return _native_sink(ex, sink, script, at)
         slot = ArcModel(MutexModel(none()))
         op = ex.call_function(new, [PanickingUpstream(script, at), slot])
         holder = [op]
